@@ -35,7 +35,7 @@ class Diagnostic:
         diag = diagnostic_json(
             self.sline, schar, self.sline, echar, self.message, self.severity
         )
-        if self.has_related:
+        if self.has_related and self.related_path is not None:
             diag["relatedInformation"] = [
                 {
                     **location_json(
